@@ -195,6 +195,13 @@ def eval_group(arg):
 
                 kw["poll"] = poll
                 expect_fail = None
+            if fault.get("stale_staging"):
+                # an earlier restore of the INTACT archive was killed while extracting: cond-out/archive-tmp still holds
+                # its index and directories; what is restored now is the damaged copy, and only its content counts
+                st = os.path.join(dst.root, "cond-out", "archive-tmp")
+                os.makedirs(st, exist_ok=True)
+                subprocess.run(["tar", "xzf", good, "-C", st], check=False)
+                bump("c12_damaged_archive_after_killed_restore_of_intact_one")
             rows_before = dst.rows()
             if isinstance(rows_before, str):
                 rows_before = []
@@ -292,6 +299,7 @@ def main(tier, n=None):
         bases.append(base)
         faults = [{"kind": "none"}, {"kind": "no-index"}, {"kind": "garbage"}, {"kind": "stale-tmp"}, {"kind": "stale-tmp-other-archive"}]
         faults += [{"kind": "no-dir", "i": rng.randrange(100)} for _ in range(2)]
+        faults += [{"kind": "no-index", "stale_staging": True}, {"kind": "no-dir", "i": rng.randrange(100), "stale_staging": True}, {"kind": "garbage", "stale_staging": True}]
         faults += [{"kind": "truncate", "frac": rng.random()} for _ in range(4 if tier == "quick" else 16)]
         faults += [{"kind": "truncate", "frac": 1.0 - rng.random() * 0.12} for _ in range(6 if tier == "quick" else 24)]   # tail: last member headers, end-of-archive blocks, gzip trailer
         faults += [{"kind": "truncate-bytes", "cut": c} for c in ([1, 8, 9, 64, 512, 1024, 1536] if tier == "quick" else [1, 2, 4, 8, 9, 16, 64, 128, 511, 512, 513, 1024, 1536, 2048, 4096, 10240])]
